@@ -332,6 +332,11 @@ func (r *rewriter) hooksIn(e ast.Node) []ast.Stmt {
 				}
 			}
 			for _, a := range x.Args {
+				// a local alias of a (possibly shared) map handed to a call: whoever receives it reads its contents
+				// (json.Marshal(m) after the lock was released)
+				if fid, isId := x.Fun.(*ast.Ident); !(isId && (fid.Name == "len" || fid.Name == "delete")) && r.localMap(a) {
+					out = append(out, r.localMapStmt(a, a.Pos()))
+				}
 				if id, ok := a.(*ast.Ident); ok {
 					if v := r.foreignPkgVar(id); v != nil {
 						out = append(out, r.objStmt(id, v, 0))
